@@ -169,7 +169,12 @@ impl Handler for H {
 
     fn creation_time(&self, path: &Path) -> Option<DateTime<Local>> {
         let now = self.time()?;
-        let k = key(path)?;
+        // a file that does not exist: the real chain (metadata fails, fall back to the current
+        // time) would give the virtual "now" as well - unless the file appears in between (a second
+        // thread or the harness creates it), and then it would report a REAL creation time
+        let Some(k) = key(path) else {
+            return Some(ns_to_local(now));
+        };
         let mut births = self.births.lock().unwrap();
         let ns = *births.entry(k).or_insert(now);
         Some(ns_to_local(ns))
